@@ -34,6 +34,10 @@ func main() {
 			genNeeds(seed, n, os.Args[5])
 		case "converge":
 			genConverge(seed, n, os.Args[5])
+		case "edsnarrow":
+			genNarrow(seed, n, os.Args[5])
+		case "rebuild":
+			genRebuild(seed, n, os.Args[5])
 		case "converge-ambient":
 			genConvergeAmbient(seed, n, os.Args[5])
 		case "converge-sweep":
@@ -45,6 +49,8 @@ func main() {
 		switch os.Args[2] {
 		case "needs":
 			execNeeds(os.Args[3], os.Args[4])
+		case "edsnarrow":
+			execNarrow(os.Args[3], os.Args[4])
 		default:
 			os.Exit(2)
 		}
@@ -54,6 +60,10 @@ func main() {
 			oracleNeeds(os.Args[3], os.Args[4])
 		case "converge":
 			oracleConverge(os.Args[3], os.Args[4])
+		case "edsnarrow":
+			oracleNarrow(os.Args[3], os.Args[4])
+		case "rebuild":
+			oracleRebuild(os.Args[3], os.Args[4])
 		default:
 			os.Exit(2)
 		}
